@@ -450,6 +450,10 @@ class Workspace(AbstractContextManager):
 
         :return entity: Newly created entity registered to the workspace
         """
+        if compression not in range(10):
+            raise ValueError(
+                f"Compression level must be an integer from 0 to 9, not {compression!r}."
+            )
 
         entity_kwargs: dict = kwargs.get("entity", {})
         entity_type_kwargs: dict = kwargs.get("entity_type", {})
